@@ -201,6 +201,8 @@ class Evaluator(object):
         self._stack = []
         self.unknown_count = 0
         self.assumed = []
+        self.last_env = None                # final environment of the outermost function evaluated last
+        self.ext_summaries = {}             # external callable name -> function(ev, args, kwargs, node)
         self.rat_type_is_float = False      # type(<symbolic number>) folds to float (used where inputs are documented floats)
         self._assigned_cache = {}
 
@@ -289,6 +291,8 @@ class Evaluator(object):
         self._stack.append(func)
         try:
             out = self.exec_block(func.node.body, env, func)
+            if len(self._stack) == 1:
+                self.last_env = out.env if out.env is not None else env
             rets = list(out.returns)
             if out.env is not None:
                 rets.append(([], NONE))
@@ -1146,6 +1150,10 @@ class Evaluator(object):
 
     # external functions -----------------------------------------------------------------------------
     def ext_call(self, name, args, kwargs, node):
+        if name in self.ext_summaries:
+            r = self.ext_summaries[name](self, args, kwargs, node)
+            if r is not NotImplemented:
+                return r
         short = name.split('.')[-1]
         mod = name.rsplit('.', 1)[0] if '.' in name else ''
         a = args
